@@ -256,6 +256,48 @@ def check_timestamp(ctx, db):
     ctx.check(ok, 'R-CLONE', 'gds_timestamp/BGNLIB~BGNSTR', f.loc(), 'the library and cell timestamp rewrites are the same code')
 
 
+def check_timestamp_coverage(ctx, db):
+    """A rewrite run visits every BGNLIB/BGNSTR: inside the record loop a return is either an error exit
+    (it stores an error code or follows a failed record read) or the query-mode exit guarded by exactly `!new_timestamp`."""
+    f = db.fn('gdstk::gds_timestamp')
+    loop = next((l for l in f.walk() if l.k == 'WhileStmt'), None)
+    if loop is None:
+        raise AnalysisBroken('gds_timestamp: record loop not found')
+    rets = [r for r in loop.walk() if r.k == 'ReturnStmt']
+    bad = []
+    nq = 0
+    for r in rets:
+        blk = r.parent
+        err = blk is not None and any(is_assign(x) and norm(x.child('lhs').text()) in ('(*error_code)', '*error_code') for x in blk.walk())
+        if err:
+            continue
+        g = next((a for a in r.ancestors() if a.k == 'IfStmt'), None)
+        c = norm(g.child('cond').text()) if g is not None else ''
+        if c in ('(!new_timestamp)', '(new_timestamp == NULL)', '(new_timestamp == __null)'):
+            nq += 1
+            continue
+        bad.append('%s: return under `%s`' % (r.loc(), c))
+    ctx.check(not bad and nq == 1 and len(rets) >= 5, 'R-MUSTPASS', 'gds_timestamp/rewrite-visits-all-records', loop.loc(), 'of %d returns inside the record loop, %d are error exits and one is the query-mode exit under `!new_timestamp`: a rewrite run only ends at ENDLIB' % (len(rets), len(rets) - 1),
+              'a run that rewrites timestamps can return before ENDLIB without an error (later BGNSTR records keep their old stamp): %s' % '; '.join(bad[:2]))
+    brk = [b for b in loop.walk() if b.k == 'BreakStmt']
+    ok = len(brk) == 1 and any(a.k == 'IfStmt' and 'GdsiiRecord::ENDLIB' in norm(a.child('cond').text()) for a in brk[0].ancestors())
+    ctx.check(ok, 'R-MUSTPASS', 'gds_timestamp/ends-at-ENDLIB', loop.loc(), 'the loop is left only at ENDLIB')
+    # the BGNSTR rewrite is conditioned on nothing but the rewrite mode
+    arm = next((i for i in loop.walk() if i.k == 'IfStmt' and 'GdsiiRecord::BGNSTR' in norm(i.child('cond').text())), None)
+    ctx.check(arm is not None and norm(arm.child('cond').text()) == '((record == GdsiiRecord::BGNSTR) && new_timestamp)', 'R-SHAPE', 'gds_timestamp/BGNSTR-arm', loop.loc(), 'every BGNSTR is rewritten whenever a new timestamp is given', 'BGNSTR arm condition: %s' % (norm(arm.child('cond').text()) if arm is not None else None))
+
+
+def check_options_untouched(ctx, db):
+    """the tag filter handed to read_gds is used as given: the parameter is never reassigned (an empty set filters everything out)"""
+    f = db.fn('gdstk::read_gds')
+    asg = [x for x in f.walk() if (is_assign(x) or x.k == 'CompoundAssignOperator') and norm(x.child('lhs').text()) == 'shape_tags']
+    uses = [x for x in f.walk() if x.k == 'DeclRefExpr' and x.n == 'shape_tags']
+    ctx.check(not asg and len(uses) >= 4, 'R-EFFECT', 'read_gds/filter-parameter-untouched', (asg[0] if asg else f).loc(), 'the filter set is only read (%d uses): NULL means no filter, any set - including the empty one - is applied as given' % len(uses),
+              'read_gds overwrites its `shape_tags` parameter: the filter that is applied is not the one the caller gave')
+    others = sorted({norm(a.child('cond').text()) for x in uses for a in x.ancestors() if a.k == 'IfStmt' and 'shape_tags' in norm(a.child('cond').text())})
+    ctx.check(all(re.match(r'^\(\(shape_tags && \(!shape_tags->has_value\(.+\)\)\) && cell\)$', c) for c in others) and len(others) == 2, 'R-SHAPE', 'read_gds/filter-uses', f.loc(), 'the filter is consulted only in the two ENDEL drop tests', 'conditions mentioning shape_tags: %s' % others)
+
+
 def check_tag_filter(ctx, db):
     f = db.fn('gdstk::read_gds')
     sw = record_switch(f)
@@ -300,10 +342,12 @@ def run(ctx):
     check_rawcells(ctx, db)
     check_timestamp(ctx, db)
     check_tag_filter(ctx, db)
+    check_timestamp_coverage(ctx, db)
+    check_options_untouched(ctx, db)
 
 
 MANIFEST = dict(
-    text='Decides structural agreement between the sibling GDSII parsers/writers: element-opening and tag-carrying record tables of gds_info equal those of read_gds (extracted from both), with the same routing into shape/label tag sets; the UNITS formulas of gds_units, gds_info and read_gds normalise to the same expressions; Library::write_gds\'s header and trailer are clones of gdswriter_init / GdsWriter::close and both hand cells the same scaling; read_rawcells accounts every record of an open structure into the raw cell (offset = ftell - record_length) and RawCell::to_gds moves exactly size bytes; a raw cell clears its source pointer unconditionally after releasing its share; the timestamp constants (28 = 4 + 2*12, seek -24, 12 words, word order and biases) are paired and the BGNLIB/BGNSTR rewrites are clones; the polygon and path tag-filter blocks at ENDEL are clones with the confirmed condition. Equality of loaded libraries or re-emitted bytes is not decided.',
+    text='Decides structural agreement between the sibling GDSII parsers/writers: element-opening and tag-carrying record tables of gds_info equal those of read_gds (extracted from both), with the same routing into shape/label tag sets; the UNITS formulas of gds_units, gds_info and read_gds normalise to the same expressions; Library::write_gds\'s header and trailer are clones of gdswriter_init / GdsWriter::close and both hand cells the same scaling; read_rawcells accounts every record of an open structure into the raw cell (offset = ftell - record_length) and RawCell::to_gds moves exactly size bytes; a raw cell clears its source pointer unconditionally after releasing its share; the timestamp constants (28 = 4 + 2*12, seek -24, 12 words, word order and biases) are paired and the BGNLIB/BGNSTR rewrites are clones; the polygon and path tag-filter blocks at ENDEL are clones with the confirmed condition and the filter parameter is never reassigned (an empty set filters everything); a timestamp rewrite run leaves the record loop only at ENDLIB or through an error exit (the only early success exit is the query mode) and rewrites every BGNSTR. Equality of loaded libraries or re-emitted bytes is not decided.',
     note='Trusted: clang front end, gx, sa rules; tables are extracted from both sides (no frozen copy of either).',
     technique='sibling table extraction and comparison + clone families + paired-constant checks over typed ASTs',
     design='§4 C17')
